@@ -10,6 +10,7 @@ import socket as real_socket
 from .boot import CUR, NODE
 
 _installed = False
+ON_RESET: list = []      # undo callbacks of per-case monkeypatches that a crashed case may have left behind
 KEY_POOL: dict[str, list[bytes]] = {}
 
 
@@ -137,6 +138,11 @@ def reset_for_world(world) -> None:  # noqa: ANN001
     from .net import LABEL
     probes.reset()
     LABEL[0] = None
+    while ON_RESET:
+        try:
+            ON_RESET.pop()()
+        except Exception:  # noqa: BLE001, S110
+            pass
     import ipv8.messaging.interfaces.lan_addresses.interfaces as lanif
     provs = lanif.get_providers()
     if len(provs) != 1 or not isinstance(provs[0], SimAddressProvider):
